@@ -80,6 +80,21 @@ def run(ck, models, tier):
                     ck.ob("R5.2", "%s/unguarded-panic" % short(adt), tm.target, False,
                           "the destructor of %s can panic (%s) on a path that does not test std::thread::panicking(): during unwinding this is a "
                           "second panic, i.e. a process abort [%s]" % (short(adt), v.note, fmt_dec(v)), wh)
+            # rustc-inserted assertion terminators reachable in the destructor (each is a potential panic while unwinding)
+            mkey = [k_ for k_ in tm.machines if k_[0] == p]
+            kinds = {}
+            for k_ in mkey:
+                for note in tm.machines[k_].notes:
+                    if note[0] == "assert":
+                        kinds.setdefault(note[1], set()).add(short(note[2]))
+            benign = ("Overflow", "MisalignedPointerDereference", "NullPointerDereference")
+            for kind, fns in sorted(kinds.items()):
+                okk = kind in benign
+                ck.ob("R5.2", "%s/assertion/%s" % (short(adt), kind), tm.target, okk,
+                      "destructor of %s reaches a non-constant `%s` assertion in %s: %s" % (
+                          short(adt), kind, sorted(fns),
+                          "address arithmetic / pointer checks of debug builds, unreachable for user-space addresses (tabulated)" if okk else
+                          "a failing assertion here panics inside a destructor, which aborts the process when it runs during unwinding"))
             for v in vs:
                 for ev in v.trace:
                     if ev.kind == "bounds_check":
